@@ -23,6 +23,7 @@ RULE = (
     ' Round 5: SM chart fields assigned values with blanks around them; twins with the same pairs in reverse insertion order must be unequal.'
     ' Round 6: values with CRLF / lone CR, long values whose only special character is a backslash, a 4000-character SM chart.'
     ' Round 7: tokenizer view of str(obj), == and != against other types, unrelated keys that are substrings of the multi-value keys.'
+    ' Round 8: unrelated keys that need escaping (with None values) and the key NOTEDATA on charts.'
 )
 EXHAUSTIVE_PART = "every model state (79 per property x 9 object/property pairs; 64 SM chart states) x every operation"
 ASSUMPTIONS = ["vmon/ref/dictmodel.py states the attribute/alias rule"]
